@@ -46,15 +46,15 @@ End Text.
 Lemma scan_escape b rest : is_special b = true -> scan (123 :: b :: 33 :: rest) 0 = Some O.
 Proof. intros Hb. simpl. rewrite Hb. simpl. destruct (b =? 123); reflexivity. Qed.
 
-Theorem escape_yields_literal_braces : forall f txt line ws ae ib il acc b rest,
+Theorem escape_yields_literal_braces : forall f txt line ws ae pos ib il acc b rest,
   txt = 123 :: b :: 33 :: rest -> is_special b = true ->
-  parse_body (S f) (mkR txt line ws ae) ib il acc
-  = parse_body f (mkR rest line ws ae) ib il (NText [123; b] line ws :: acc).
+  parse_body (S f) (mkR txt line ws ae pos) ib il acc
+  = parse_body f (mkR rest line ws ae (pos + 3)) ib il (NText [123; b] line ws :: acc).
 Proof.
-  intros f txt line ws ae ib il acc b rest -> Hb.
+  intros f txt line ws ae pos ib il acc b rest -> Hb.
   cbn [parse_body r_txt]. rewrite (scan_escape b rest Hb).
   assert (H2 : (b =? 10) = false).
   { unfold is_special in Hb. destruct (b =? 10) eqn:E; [|reflexivity]. apply N.eqb_eq in E. subst b. discriminate. }
   unfold consume. cbn [r_txt r_line r_ws r_ae firstn skipn count_nl]. rewrite H2.
-  cbn. rewrite !Nat.add_0_r. reflexivity.
+  cbn. rewrite !Nat.add_0_r. replace (pos + 2 + 1)%nat with (pos + 3)%nat by lia. reflexivity.
 Qed.
